@@ -97,6 +97,9 @@ func (s *OAEPSession) Parameter(rand io.Reader, ownerKey *rsa.PublicKey) ([]byte
 		// Owner random is only signed, not encrypted
 		return x, nil
 	}
+	if ownerKey == nil {
+		return nil, fmt.Errorf("owner key must be an RSA public key")
+	}
 	s.xB = bytes.Clone(x)
 
 	// Compute session key
